@@ -30,7 +30,8 @@ CLAIMED = {
         ref="7 (C17)",
     ),
     "C19": dict(
-        text="spec/History.tla: jobs run directly or through a CsvPaths instance (the route that consults the on-disk line/header cache), NewProcess "
+        text="spec/History.tla: jobs run directly, through a CsvPaths instance (the route that consults the on-disk line/header cache) or as named runs "
+        "(the job's file registered under one shared named-file name, whatever was registered under it before - incl. X, Y, X), NewProcess "
         "(process-global registries reset, disk cache kept), ClearCache; HistoryFree (a job's result is a function of the job alone) checked by "
         "TLC; every emitted history is replayed with one fresh python interpreter per process segment sharing a scratch cache directory, each "
         "job's full result tuple (lines, variables, printouts, errors, verdict, counters, headers) compared with the same job run first in a fresh "
